@@ -3,10 +3,19 @@ Line-protocol driver for the C11 models (Core/C11.lean).  Parsing glue only.
 
   gmrf <bias 0|1> <mode c|s> <nv> <k> <nE> (v1 v2)* <nchunks> (r c x…)*
       first chunk = initial batch (incremental=True), the others are fed to `increment` in order
-      → ok <n> | <mean: d> | <precision: d·d row major> | <block covariances: nBlocks·p·p>      (d = nv·k)
+      → ok <n> | <mean: d> | <dense-storage precision: d·d row major> | <block covariances: nBlocks·p·p>
+           | <sparse-storage (BSR, duplicates summed) precision: d·d>                             (d = nv·k)
       → err singular     (a block covariance has no inverse)
+  gmrfo <bias> <mode> <nv> <k> <nE> (v1 v2)* <nchunks> (<nsamples> (nv k x…)*)*
+      object level (`GMRFModel`): every sample is a point cloud `nv × k`; same reply, the mean is `mean()` flattened
   pca <centred 0|1> <spec|coded> <nchunks> (r c x…)*
-      → ok <n> | <mean: d> | <scatter/(n−1): d·d>         (d = columns of the first chunk)
+      → ok <n> | <mean: d> | <scatter/(n−1): d·d> | <exact rank of the scatter>     (d = columns of the first chunk)
+  pcao <centred 0|1> <k> <nchunks> (<nsamples> (np k x…)*)*
+      object level (`PCAModel`): every sample is a point cloud `np × k`; same reply as `pca … spec`
+  pcaf <centred 0|1> (r c x…) <nsteps> (f (r c x…))*
+      initial batch, then increments each with its forgetting factor → ok <n> | <mean: d> | <covariance: d·d>
+  keep <eps> <nm1> <n> s²…
+      → ok <len(l)> | <l = (s²/nm1)[> eps]>
 -/
 import MenpoModel.Core.Codec
 import MenpoModel.Core.C11
@@ -24,11 +33,9 @@ def pEdges : P (List (Nat × Nat)) := do
   let n ← pNat
   pMany (do let a ← pNat; let b ← pNat; pure (a, b)) n
 
-def runGmrf (b : Bool) (g : GSpec) (chunks : List (List (List Rat))) : String :=
-  match chunks with
-  | [] => "bad-op"
-  | c0 :: rest =>
-    let st := gmrfRun b g.feat (dataOf c0) (rest.map dataOf)
+def cloudOf (m : List (List Rat)) : Cloud := fun p c => (m.getD p []).getD c 0
+
+def reportGmrf (g : GSpec) (st : GState) (meanVec : Vec) : String :=
     let p := g.blockDim
     -- tabulate once: block covariances and their exact inverses (`precision g inv st.cov` with `inv` = exact
     -- inverse is `precisionOf g (fun e => inv (st.cov e))` by definition; the table only avoids recomputation)
@@ -37,8 +44,43 @@ def runGmrf (b : Bool) (g : GSpec) (chunks : List (List (List Rat))) : String :=
     if invs.any (·.isNone) then "err singular" else
     let d := g.nv * g.k
     let P := precisionOf g (fun e => ofRows ((invs.getD e none).getD []))
-    s!"ok {st.n} | {fmtVec d st.mean} | {fmtSq d P} | " ++
-      " ".intercalate (covs.map fun c => fmtRats c.flatten)
+    let Ps := precisionOfSparse g (fun e => ofRows ((invs.getD e none).getD []))
+    s!"ok {st.n} | {fmtVec d meanVec} | {fmtSq d P} | " ++
+      " ".intercalate (covs.map fun c => fmtRats c.flatten) ++ s!" | {fmtSq d Ps}"
+
+def runGmrf (b : Bool) (g : GSpec) (chunks : List (List (List Rat))) : String :=
+  match chunks with
+  | [] => "bad-op"
+  | c0 :: rest =>
+    let st := gmrfRun b g.feat (dataOf c0) (rest.map dataOf)
+    reportGmrf g st st.mean
+
+def runGmrfObj (b : Bool) (g : GSpec) (chunks : List (List (List (List Rat)))) : String :=
+  match chunks with
+  | [] => "bad-op"
+  | c0 :: rest =>
+    let st := gmrfObjRun b g (c0.map cloudOf) (rest.map (·.map cloudOf))
+    let mc := gmrfObjMean g st
+    -- `mean()` is a point cloud; it is reported flattened (`as_vector()`)
+    reportGmrf g st (asVector g.k mc)
+
+def reportPca (d : Nat) (st : PState) : String :=
+  if st.n ≤ 1 then "err too-few" else
+  let nm1 : Rat := (st.n : Rat) - 1
+  s!"ok {st.n} | {fmtVec d st.mean} | {fmtSq d (fun i j => st.scat i j / nm1)} | {rankExact d st.scat}"
+
+def runPcaObj (centred : Bool) (k : Nat) (chunks : List (List (List (List Rat)))) : String :=
+  match chunks with
+  | [] => "bad-op"
+  | c0 :: rest =>
+    let d := (c0.headD []).length * k
+    reportPca d (pcaObjRun k centred (c0.map cloudOf) (rest.map (·.map cloudOf)))
+
+def runPcaForget (centred : Bool) (c0 : List (List Rat)) (steps : List (Rat × List (List Rat))) : String :=
+  let d := (c0.headD []).length
+  if c0.length ≤ 1 then "err too-few" else
+  let st := pcaRunForget centred (dataOf c0) (steps.map fun s => (s.1, dataOf s.2))
+  s!"ok {st.n} | {fmtVec d st.mean} | {fmtSq d st.cov}"
 
 def runPca (centred coded : Bool) (chunks : List (List (List Rat))) : String :=
   match chunks with
@@ -47,9 +89,7 @@ def runPca (centred coded : Bool) (chunks : List (List (List Rat))) : String :=
     let d := (c0.headD []).length
     let st := if coded then pcaRunCoded d centred (dataOf c0) (rest.map dataOf)
               else pcaRunSpec centred (dataOf c0) (rest.map dataOf)
-    if st.n ≤ 1 then "err too-few" else
-    let nm1 : Rat := (st.n : Rat) - 1
-    s!"ok {st.n} | {fmtVec d st.mean} | {fmtSq d (fun i j => st.scat i j / nm1)}"
+    reportPca d st
 
 def step (toks : List String) : String :=
   match toks with
@@ -62,6 +102,33 @@ def step (toks : List String) : String :=
       if md == "c" then runGmrf b ⟨nv, k, es, .concatenation⟩ cs
       else if md == "s" then runGmrf b ⟨nv, k, es, .subtraction⟩ cs
       else "bad-op"
+    | none => "bad-op"
+  | "gmrfo" :: r =>
+    match runP (do
+        let b ← pBool; let md ← tok; let nv ← pNat; let k ← pNat; let es ← pEdges
+        let cs ← pList (pList pMat)
+        pure (b, md, nv, k, es, cs)) r with
+    | some (b, md, nv, k, es, cs) =>
+      if md == "c" then runGmrfObj b ⟨nv, k, es, .concatenation⟩ cs
+      else if md == "s" then runGmrfObj b ⟨nv, k, es, .subtraction⟩ cs
+      else "bad-op"
+    | none => "bad-op"
+  | "pcao" :: r =>
+    match runP (do let c ← pBool; let k ← pNat; let cs ← pList (pList pMat); pure (c, k, cs)) r with
+    | some (c, k, cs) => runPcaObj c k cs
+    | none => "bad-op"
+  | "pcaf" :: r =>
+    match runP (do
+        let c ← pBool; let c0 ← pMat
+        let steps ← pList (do let f ← pRat; let m ← pMat; pure (f, m))
+        pure (c, c0, steps)) r with
+    | some (c, c0, steps) => runPcaForget c c0 steps
+    | none => "bad-op"
+  | "keep" :: r =>
+    match runP (do let eps ← pRat; let nm1 ← pRat; let s2 ← pList pRat; pure (eps, nm1, s2)) r with
+    | some (eps, nm1, s2) =>
+      let l := ipcaKeep eps (ipcaEigs nm1 s2)
+      s!"ok {l.length} | {fmtRats l}"
     | none => "bad-op"
   | "pca" :: r =>
     match runP (do let c ← pBool; let v ← tok; let cs ← pList pMat; pure (c, v, cs)) r with
